@@ -510,3 +510,140 @@ Proof.
              (fun a0 => inext_slice (S (length (iden s))) 0 a0)).
   rewrite Hs. reflexivity.
 Qed.
+
+(* ---- the theorem ---- *)
+Inductive ctx1 :=
+| XPeek
+| XCompact (r : rel)
+| XFilter (f : pred) (fl : failing)
+| XFirst (n : Z)
+| XMap (g : fn) (fl : failing)
+| XWhile (f : pred) (fl : failing)
+| XChunk (n : Z).
+
+Definition plug (c : ctx1) (q : pz) : pz + pl :=
+  match c with
+  | XPeek => inl (ZPeek q)
+  | XCompact r => inl (ZCompact r q)
+  | XFilter f fl => inl (ZFilter f fl q)
+  | XFirst n => inl (ZFirst n q)
+  | XMap g fl => inl (ZMap g fl q)
+  | XWhile f fl => inl (ZWhile f fl q)
+  | XChunk n => inr (LChunk n q)
+  end.
+
+Lemma compose_logs (Sg : Type) (mk : Sg -> ist -> irun_st) (sg0 : Sg) cfg (p ps : pz + pl) q k :
+  (forall sg s o st' ev, iok s -> irun_next (mk sg s) = (o, st', ev) ->
+     exists sg' s' m, st' = mk sg' s' /\ iok s' /\ gchain m s ev s' /\
+       irun_next (mk sg (sl s)) = (o, mk sg' (sl s'), pulls 0 m)) ->
+  irun_init p = mk sg0 (iinit q) -> irun_init ps = mk sg0 (sl (iinit q)) ->
+  dom_z q ->
+  ro_log (run_iter_cfg cfg p (ksteps k))
+  = ro_log (run_iter_cfg cfg (inl q)
+              (ksteps (pulls_in (run_iter_cfg cfg ps (ksteps k)) 0))).
+Proof.
+  intros Hstep Hp Hps Hd. pose proof (proj1 iinit_ok q Hd) as Hok.
+  unfold pulls_in. rewrite !ro_log_steps, Hp, Hps.
+  destruct (compose_run Sg mk Hstep (sort_ids (pipe_ids p)) (sort_ids (pipe_ids ps)) k sg0
+                        (iinit q) [] [] Hok) as (M & E & s' & H1 & H2 & H3).
+  rewrite H1, H3. simpl app. rewrite count_next_pulls.
+  simpl irun_init. symmetry.
+  apply (gchain_run _ M (iinit q) E s' H2 (iinit q) []); [|exact Hok].
+  intros L. apply (proj1 (irel_refl_both L)).
+Qed.
+
+(* C over an arbitrary inner pipeline q pulls from q's sources exactly what m stand-alone Next
+   calls on q pull, m = the number of calls C makes on a Slice holding q's items *)
+Theorem compose_pulls cfg c q k :
+  iter_supported_z q = true -> dom_z q ->
+  let m := pulls_in (run_iter_cfg cfg (plug c (ZSrc 0 (SSlice (den_z q)))) (ksteps k)) 0 in
+  ro_log (run_iter_cfg cfg (plug c q) (ksteps k))
+  = ro_log (run_iter_cfg cfg (inl q) (ksteps m)).
+Proof.
+  intros Hs Hd m. unfold m.
+  assert (Hden : iden (iinit q) = den_z q) by (apply (proj1 iinit_den); exact Hs).
+  destruct c as [|r|f fl|n|g fl|f fl|n]; cbn [plug].
+  - apply (compose_logs (bool * Z) (fun sg s => RZ (IPeek (mkPk (fst sg) (snd sg) s))) (false, 0));
+      [intros sg s o st' ev; apply peek_hstep|reflexivity| |exact Hd].
+    unfold sl. rewrite Hden. reflexivity.
+  - apply (compose_logs (bool * Z) (fun sg s => RZ (ICompact r (fst sg) (snd sg) s)) (true, 0));
+      [intros sg s o st' ev; apply compact_hstep|reflexivity| |exact Hd].
+    unfold sl. rewrite Hden. reflexivity.
+  - apply (compose_logs unit (fun _ s => RZ (IFilter f s)) tt);
+      [intros sg s o st' ev; apply (filter_hstep f sg)|reflexivity| |exact Hd].
+    unfold sl. rewrite Hden. reflexivity.
+  - apply (compose_logs Z (fun sg s => RZ (IFirst sg s)) n);
+      [intros sg s o st' ev; apply first_hstep|reflexivity| |exact Hd].
+    unfold sl. rewrite Hden. reflexivity.
+  - apply (compose_logs unit (fun _ s => RZ (IMap g s)) tt);
+      [intros sg s o st' ev; apply (map_hstep g sg)|reflexivity| |exact Hd].
+    unfold sl. rewrite Hden. reflexivity.
+  - apply (compose_logs bool (fun sg s => RZ (IWhile f sg s)) false);
+      [intros sg s o st' ev; apply while_hstep|reflexivity| |exact Hd].
+    unfold sl. rewrite Hden. reflexivity.
+  - apply (compose_logs unit (fun _ s => RL (IChunk n s)) tt);
+      [intros sg s o st' ev; apply (chunk_hstep n sg)|reflexivity| |exact Hd].
+    unfold sl. rewrite Hden. reflexivity.
+Qed.
+
+(* in particular the pull counts of every source *)
+Corollary compose_pull_counts cfg c q k id :
+  iter_supported_z q = true -> dom_z q ->
+  let m := pulls_in (run_iter_cfg cfg (plug c (ZSrc 0 (SSlice (den_z q)))) (ksteps k)) 0 in
+  pulls_in (run_iter_cfg cfg (plug c q) (ksteps k)) id
+  = pulls_in (run_iter_cfg cfg (inl q) (ksteps m)) id.
+Proof. intros Hs Hd m. unfold pulls_in. rewrite (compose_pulls cfg c q k Hs Hd). reflexivity. Qed.
+
+(* with the closed formulas of GapsPulls.v, e.g. Filter over any pipeline: *)
+Corollary filter_over_any cfg keep fl q k id :
+  iter_supported_z q = true -> dom_z q ->
+  pulls_in (run_iter_cfg cfg (inl (ZFilter keep fl q)) (ksteps k)) id
+  = pulls_in (run_iter_cfg cfg (inl q) (ksteps (filter_pos keep (den_z q) k))) id.
+Proof.
+  intros Hs Hd. pose proof (compose_pull_counts cfg (XFilter keep fl) q k id Hs Hd) as H.
+  cbn [plug] in H. rewrite H. unfold pulls_in at 2.
+  rewrite (proj1 (filter_pulls_all 0 keep cfg fl (den_z q) k)). reflexivity.
+Qed.
+
+(* non-vacuity: Filter over First over Join of two sources *)
+Example compose_demo :
+  let q := ZFirst 5 (ZJoin [ZSrc 1 (SSlice [1; 2; 3]); ZSrc 2 (SCounter 10)]) in
+  den_z q = [1; 2; 3; 0; 1] /\
+  filter_pos (PrModEq 2 0) (den_z q) 2 = 4%nat /\
+  map (pulls_in (run_iter (inl (ZFilter (PrModEq 2 0) never_fails q)) (ksteps 2))) [1; 2]%nat
+  = [4; 1]%nat /\
+  map (pulls_in (run_iter (inl q) (ksteps 4))) [1; 2]%nat = [4; 1]%nat.
+Proof. vm_compute. repeat split; reflexivity. Qed.
+
+(* ---- necessity at the interface between C and an arbitrary inner pipeline ---- *)
+From Juniper Require Import Iter.GapsNeed.
+
+Definition ctx_dom (c : ctx1) : Prop := match c with XChunk n => 1 <= n | _ => True end.
+
+Lemma plug_results cfg c q k :
+  iter_supported_z q = true -> dom_z q -> ctx_dom c ->
+  results (run_iter_cfg cfg (plug c q) (ksteps k))
+  = results (run_iter_cfg cfg (plug c (ZSrc 0 (SSlice (den_z q)))) (ksteps k)).
+Proof.
+  intros Hs Hd Hc.
+  rewrite !results_den;
+    try (destruct c; simpl in *; auto; fail).
+Qed.
+
+(* C(q) has made m calls of q.Next (compose_pulls); if the m-th answer of a Slice holding q's
+   items was needed by C (GapsNeed.v), it was needed by C(q): an inner iterator that answers the
+   first m-1 calls like q but differently afterwards changes the first k results *)
+Theorem compose_needed cfg c q k :
+  iter_supported_z q = true -> dom_z q -> ctx_dom c ->
+  needed cfg (fun l => plug c (ZSrc 0 (SSlice l))) 0 (den_z q) k ->
+  let m := pulls_in (run_iter_cfg cfg (plug c (ZSrc 0 (SSlice (den_z q)))) (ksteps k)) 0 in
+  ro_log (run_iter_cfg cfg (plug c q) (ksteps k)) = ro_log (run_iter_cfg cfg (inl q) (ksteps m)) /\
+  ((1 <= m)%nat ->
+   exists l', agree_upto (m - 1) (den_z q) l' /\
+              results (run_iter_cfg cfg (plug c (ZSrc 0 (SSlice l'))) (ksteps k))
+              <> results (run_iter_cfg cfg (plug c q) (ksteps k))).
+Proof.
+  intros Hs Hd Hc Hn m. split; [apply compose_pulls; assumption|].
+  intros Hm. destruct (Hn Hm) as (l' & Ha & Hr). exists l'. split; [exact Ha|].
+  rewrite (plug_results cfg c q k Hs Hd Hc). exact Hr.
+Qed.
